@@ -45,7 +45,8 @@ Oracles
              A wrong Love number (wrong degree, wrong rigidity, a cached value of another degree) leaves the hull
              unless the degree's own frequency dependence is as large as the error; a different but correct grouping
              (e.g. `n_sig = n_coeff`) does not fire.
-             The quick_tidal_dissipation call must not modify its keyword arguments (inputs_not_mutated).
+             The quick_tidal_dissipation call must not modify its keyword arguments (inputs_not_mutated); for array cases two
+             more calls re-using the same ndarray objects overwritten in place must equal calls with fresh arrays (history).
   solver     (every stored solution of the batch, read back after the whole batch) (k, h, l) re-read from the stored solution
              object, and the array views taken right after its own call, are bit-identical to the values read right after that
              call (`stored_solution_changed`); and, with K the compressible-limit bulk modulus of the layers NOT flagged
@@ -450,6 +451,18 @@ def _evaluate_quick(case):
                      'mode': 'equal' if single else 'hull'},
                 'l=%d rheology=%s tidal_scale=%r: %s' % (l, b.rheology, b.tidal_scale, det))
     c.nontrivial = nontrivial or b.rheology in ('cpl', 'ctl')
+    # call history: the same ndarray objects re-used after being overwritten in place must give what fresh arrays give
+    if su.as_array:
+        def make_call(su_s, kw_, build_only=False):
+            if kw_ is None:
+                kw2 = tc.single_kwargs(su_s, su_s.bodies[0], derivatives=False)
+                if build_only:
+                    return kw2
+                return kw2, tc.call_repo('quick_tidal_dissipation', quick_tidal_dissipation, **kw2)
+            return tc.call_repo('quick_tidal_dissipation', quick_tidal_dissipation, **kw_)
+        tc.history_check(c, case, False, kw, make_call, 'quick_tidal_dissipation',
+                         is_known=lambda ex: isinstance(ex.exc, ZeroDivisionError) and 'complex division' in str(ex.exc)
+                         and b.rheology == 'newton')
     return c.result()
 
 
